@@ -11,7 +11,7 @@ PER_BATCH = {'quick': 250, 'thorough': 4000}
 FLOORS = {
     'quick': {'distinct_nontrivial': 2500, 'modular-grammars': 500, 'inputs-judged': 8000, 'feature:transitive-dependency': 3000, 'feature:rename': 2500,
               'feature:multi-import': 2500, 'feature:same-named-local-definition': 1500, 'feature:override-rule': 1000, 'feature:override-dependency': 500,
-              'feature:extend-rule': 1000, 'feature:override-terminal': 500, 'feature:extend-terminal': 500, 'feature:imported-template': 300,
+              'feature:extend-rule': 1000, 'feature:override-terminal': 500, 'feature:extend-terminal': 500, 'feature:imported-template': 300, 'feature:directive-reaches-composed-terminal': 150,
               'feature:module-ignore-dropped': 2500, 'feature:two-levels': 400, 'feature:underscore-names': 1000, 'feature:accepted': 4000, 'feature:rejected': 2500,
               'engine:lalr': 1500, 'engine:earley-explicit': 5000},
     'thorough-unused': {'distinct_nontrivial': 40000, 'modular-grammars': 12000},
@@ -109,6 +109,7 @@ def print_module(rules, terms, extra):
 
 def closure(G, roots):
     rules = {r['name']: r for r in G['rules']}
+    terms = {t['name']: t for t in G['terms']}
     S = set()
     st = list(roots)
     while st:
@@ -118,7 +119,26 @@ def closure(G, roots):
         S.add(x)
         if x[0] == 'r' and x[1] in rules:
             st.extend(rule_refs(rules[x[1]]))
+        elif x[0] == 't':
+            st.extend(('t', d) for d in terms.get(x[1], {}).get('deps', []))      # terminals composed from terminals
     return S
+
+
+def add_composed_terminal(rng, G):
+    """a terminal defined in terms of another one (CMPA: A+ ";"): %extend / %override of A must reach it"""
+    lits = literal_strings(G)
+    cands = [t for t in G['terms'] if t['pat'][0] == 's' and not t['pat'][2] and t['pat'][1] not in lits and t['name'] not in G['ignore']
+             and not t['name'].startswith('_')]
+    rules = [r for r in G['rules'] if r['name'] != 'start' and not r.get('params')]
+    if not cands or not rules:
+        return
+    T = rng.choice(cands)
+    ch = T['pat'][1]
+    name = 'CMP' + T['name']
+    G['terms'].append({'name': name, 'prio': None, 'pat': ['x', '(?:%s)+;' % re.escape(ch), ''], 'text': '%s+ ";"' % T['name'],
+                       'ex': [ch + ';', ch + ch + ';'], 'deps': [T['name']], 'base': T['name']})
+    rng.choice(rules)['alts'].append(gen.alt([['t', name]]))
+    G['alphabet'] = sorted(set(G['alphabet']) | {';'})
 
 
 def split(rng, G):
@@ -141,6 +161,9 @@ def split(rng, G):
     used_by_main = set()
     for r in main_rules:
         used_by_main |= rule_refs(r) & S
+    for t in G['terms']:
+        if ('t', t['name']) not in S:
+            used_by_main |= {('t', d) for d in t.get('deps', [])} & S      # a composed terminal that stays in main
     if not used_by_main:
         return None
     imported = set(used_by_main)
@@ -148,6 +171,9 @@ def split(rng, G):
     for x in sorted(S - imported):
         if rng.random() < 0.2 and not (x[0] == 'r' and rules.get(x[1], {}).get('params')):
             imported.add(x)
+    for t in G['terms']:
+        if t.get('base') and ('t', t['base']) in S and rng.random() < 0.8:
+            imported.add(('t', t['base']))
     transitive = S - imported
     if transitive:
         feats.add('transitive-dependency')
@@ -195,6 +221,7 @@ def split(rng, G):
         lines.append('%%import %s.%s%s' % (mod, x[1], (' -> ' + rn[x]) if x in rn else ''))
     main_r = [rename_rule(r, rn) for r in main_rules]
     main_t = [t for t in G['terms'] if ('t', t['name']) not in S]
+    main_t = [dict(t, text='%s+ ";"' % rn.get(('t', t['base']), t['base'])) if t.get('base') else t for t in main_t]
     # ---- same-named local definition (no capture): a local rule called like a transitive module rule
     shadowed = None
     tr_rules = [n for k, n in sorted(transitive) if k == 'r' and not rules[n].get('params') and not n.startswith('_')]
@@ -219,6 +246,7 @@ def split(rng, G):
         frules = {r['name']: r for r in flat['rules']}
     # ---- override / extend (of names visible in main)
     directives = []
+    flat_alt = None
     vis_rules = [x for x in imp if x[0] == 'r' and not rules[x[1]].get('params')]
     if vis_rules and rng.random() < 0.45:
         x = rng.choice(vis_rules)
@@ -250,8 +278,10 @@ def split(rng, G):
     # which no textual inlining can express: such terminals are left alone)
     lits = literal_strings(G)
     vis_terms = [x for x in imp if x[0] == 't' and terms[x[1]]['pat'][0] == 's' and not terms[x[1]]['pat'][2] and terms[x[1]]['pat'][1] not in lits]
-    if vis_terms and rng.random() < 0.4:
-        x = rng.choice(vis_terms)
+    composed = {t['base']: t['name'] for t in G['terms'] if t.get('base') and ('t', t['name']) in S}
+    if vis_terms and (rng.random() < 0.4 or any(x[1] in composed for x in vis_terms)):
+        pref = [x for x in vis_terms if x[1] in composed]
+        x = rng.choice(pref or vis_terms)
         name_main = rn.get(x, x[1])
         ft = fterms[x[1]]
         if rng.random() < 0.5:
@@ -259,12 +289,27 @@ def split(rng, G):
             ft['pat'] = ['s', 'y', '']
             ft['ex'] = ['y']
             feats.add('override-terminal')
+            if x[1] in composed:
+                fc = fterms[composed[x[1]]]
+                # model of finding F-C17-1: the composed terminal keeps the body its base had inside the module
+                flat_alt = copy.deepcopy(flat)
+                for t in flat_alt['terms']:
+                    if t['name'] == fc['name']:
+                        t['text'] = '%s+ ";"' % print_pat(terms[x[1]]['pat'])
+                fc['pat'], fc['ex'] = ['x', '(?:y)+;', ''], ['y;', 'yy;']
+                feats.add('directive-reaches-composed-terminal')
+                feats.add('override-of-composed-base')
         else:
             directives.append('%%extend %s: "y"' % name_main)
             ft['text'] = '%s | "y"' % print_pat(ft['pat'])
             ft['ex'] = list(ft.get('ex') or [ft['pat'][1]]) + ['y']
-            ft['pat'] = ['x', '(?:%s|y)' % re.escape(ft['pat'][1]), '']
+            old = ft['pat'][1]
+            ft['pat'] = ['x', '(?:%s|y)' % re.escape(old), '']
             feats.add('extend-terminal')
+            if x[1] in composed:
+                fc = fterms[composed[x[1]]]
+                fc['pat'], fc['ex'] = ['x', '(?:%s|y)+;' % re.escape(old), ''], fc['ex'] + ['y;', old + 'y;']
+                feats.add('directive-reaches-composed-terminal')
         flat['alphabet'] = sorted(set(flat['alphabet']) | {'y'})
     if any(rules[n].get('params') for k, n in imp if k == 'r'):
         feats.add('imported-template')
@@ -286,7 +331,7 @@ def split(rng, G):
     if S2:
         files['m2.lark'] = print_module([r for r in G['rules'] if ('r', r['name']) in S2], [t for t in G['terms'] if ('t', t['name']) in S2], ['JUNK2: "^"', '%ignore JUNK2'])
     flat['alphabet'] = sorted(set(flat['alphabet']) | {'~'})
-    return {'files': files, 'main': main_text, 'flat': flat, 'rename': {'%s:%s' % k: v for k, v in rn.items()}, 'feats': feats, 'relative': rel}
+    return {'files': files, 'main': main_text, 'flat': flat, 'flat_alt': flat_alt, 'rename': {'%s:%s' % k: v for k, v in rn.items()}, 'feats': feats, 'relative': rel}
 
 
 # ------------------------------------------------------------------ comparison
@@ -323,7 +368,7 @@ def run_case(ctx, sp, texts, tmp, only_input=None):
     for fn, tx in sp['files'].items():
         with open(os.path.join(tmp, fn), 'w') as f:
             f.write(tx)
-    case0 = {'flat': flat, 'main': sp['main'], 'files': sp['files'], 'rename': sp['rename'], 'relative': sp['relative']}
+    case0 = {'flat': flat, 'flat_alt': sp.get('flat_alt'), 'main': sp['main'], 'files': sp['files'], 'rename': sp['rename'], 'relative': sp['relative']}
     back = {}
     for k, v in sp['rename'].items():
         back[k[0] + ':' + v] = k[2:]
@@ -338,6 +383,27 @@ def run_case(ctx, sp, texts, tmp, only_input=None):
         if st != 'ok':
             ctx.count('flat-not-constructible:%s:%s' % (ename, st))
             continue
+        lalt = None
+        if sp.get('flat_alt'):
+            sta, lalt = build(ctx, print_grammar(sp['flat_alt']), **kw)
+            if sta != 'ok':
+                lalt = None
+
+        def explained(w, b):
+            """F-C17-1: does the modular grammar behave exactly like the flat grammar in which the composed terminal
+            kept the old body of its overridden base?"""
+            if lalt is None:
+                return None
+            c = call(ctx, 'parse', lalt.parse, w, budget=400_000)
+            if (c[0] == 'ok') != (b[0] == 'ok'):
+                return None
+            if c[0] == 'ok':
+                try:
+                    if tree_set(c[1], {}, named) != tree_set(b[1], back, named):
+                        return None
+                except R.TooMany:
+                    return None
+            return 'F-C17-1'
         st, lm = build(ctx, sp['main'], **dict(kw, **imp))
         if st != 'ok':
             ctx.judged([ftext, sp['main'], ename, 'construct'], nontriv, feats)
@@ -358,7 +424,8 @@ def run_case(ctx, sp, texts, tmp, only_input=None):
             ctx.count('engine:' + ename)
             case = dict(case0, engine=ename, input=w)
             if (a[0] == 'ok') != (b[0] == 'ok'):
-                ctx.violation('language-differs-from-flat-grammar:%s' % ename, case, {'flat': a if a[0] != 'ok' else 'accepted', 'modular': b if b[0] != 'ok' else 'accepted'})
+                ctx.violation('language-differs-from-flat-grammar:%s' % ename, case, {'flat': a if a[0] != 'ok' else 'accepted', 'modular': b if b[0] != 'ok' else 'accepted'},
+                              explained(w, b))
                 continue
             if a[0] != 'ok':
                 continue
@@ -368,7 +435,7 @@ def run_case(ctx, sp, texts, tmp, only_input=None):
                 ctx.count('too-many-trees(not judged)')
                 continue
             if sa != sb:
-                ctx.violation('trees-differ-from-flat-grammar:%s' % ename, case, {'flat': sorted(map(str, sa))[:3], 'modular': sorted(map(str, sb))[:3]})
+                ctx.violation('trees-differ-from-flat-grammar:%s' % ename, case, {'flat': sorted(map(str, sa))[:3], 'modular': sorted(map(str, sb))[:3]}, explained(w, b))
     for fn in sp['files']:
         os.unlink(os.path.join(tmp, fn))
     if ctx.evaluations % 13 == 0:
@@ -406,6 +473,8 @@ def run_batch(ctx):
                 break
             G = gen.ebnf(rng, n_rules=rng.randint(3, 6), allow_templates=(i % 3 == 0), p_rec=0.1, p_ignore=0.3, mods_pool=('', '', '', '?', '!', '?'))
             G = gen.prune(G)
+            if rng.random() < 0.4:
+                add_composed_terminal(rng, G)
             sp = split(rng, G)
             if sp is None:
                 ctx.count('skipped:no-split-possible')
@@ -418,7 +487,7 @@ def run_batch(ctx):
 def replay(ctx, case):
     tmp = tempfile.mkdtemp(prefix='vlark-c17-')
     try:
-        sp = {'flat': case['flat'], 'main': case['main'], 'files': case['files'], 'rename': case['rename'], 'relative': case['relative'], 'feats': set()}
+        sp = {'flat': case['flat'], 'flat_alt': case.get('flat_alt'), 'main': case['main'], 'files': case['files'], 'rename': case['rename'], 'relative': case['relative'], 'feats': set()}
         run_case(ctx, sp, [case['input']] if 'input' in case else inputs_for(ctx.rng, case['flat']), tmp)
     finally:
         shutil.rmtree(tmp, ignore_errors=True)
